@@ -452,7 +452,7 @@ type c19Gen struct {
 	safe bool // server-level ops: keep cli.path inside a set of harmless values
 }
 
-func num(s string) any { return stdjson.Number(s) }
+func c19num(s string) any { return stdjson.Number(s) }
 
 var c19BoolStrings = []string{"true", "false", "TRUE", "False", " true", "false ", "\ttrue\n", " FaLsE  ",
 	"tRuE", " true ", "\u3000FALSE", "true\u0085", "TRUE\ufeff", "\uff54rue", "ſalse", "falſe",
@@ -480,7 +480,7 @@ func (g *c19Gen) goodVal(l c19Leaf) any {
 	case 'b':
 		return g.r.IntN(2) == 0
 	case 'i':
-		return num(pick(g.r, l.good))
+		return c19num(pick(g.r, l.good))
 	default:
 		return pick(g.r, l.good)
 	}
@@ -494,7 +494,7 @@ func (g *c19Gen) junk(depth int) any {
 	case 1:
 		return r.IntN(2) == 0
 	case 2:
-		return num(pick(r, []string{"0", "1", "-1", "3", "2.5", "1e3", "50"}))
+		return c19num(pick(r, []string{"0", "1", "-1", "3", "2.5", "1e3", "50"}))
 	case 3:
 		return pick(r, []string{"", "x", "true", "7", "hledger", " false "})
 	case 4:
@@ -560,7 +560,7 @@ func (g *c19Gen) leafVal(l c19Leaf) (any, string) {
 		case x < 78:
 			return map[string]any{"value": true}, "object"
 		case x < 90:
-			return num(pick(r, []string{"0", "1", "-1", "2", "0.0", "1.0"})), "wrong-type"
+			return c19num(pick(r, []string{"0", "1", "-1", "2", "0.0", "1.0"})), "wrong-type"
 		default:
 			return g.junk(1), "junk"
 		}
@@ -569,7 +569,7 @@ func (g *c19Gen) leafVal(l c19Leaf) (any, string) {
 		case x < 30:
 			return g.goodVal(l), "well-typed"
 		case x < 40:
-			return num(pick(r, c19FloatNums)), "num-float"
+			return c19num(pick(r, c19FloatNums)), "num-float"
 		case x < 55:
 			if r.IntN(3) == 0 {
 				return " " + pick(r, l.good) + "\t", "num-as-string"
@@ -578,17 +578,17 @@ func (g *c19Gen) leafVal(l c19Leaf) (any, string) {
 		case x < 60:
 			return nil, "null"
 		case x < 64:
-			return []any{num("3")}, "array"
+			return []any{c19num("3")}, "array"
 		case x < 68:
-			return map[string]any{"value": num("3")}, "object"
+			return map[string]any{"value": c19num("3")}, "object"
 		case x < 74:
 			return r.IntN(2) == 0, "wrong-type"
 		case x < 84:
-			return num(pick(r, c19HugeNums)), "huge"
+			return c19num(pick(r, c19HugeNums)), "huge"
 		case x < 90:
-			return num(pick(r, c19NegNums)), "negative"
+			return c19num(pick(r, c19NegNums)), "negative"
 		case x < 96:
-			return num(pick(r, c19ZeroNums)), "zero"
+			return c19num(pick(r, c19ZeroNums)), "zero"
 		default:
 			return g.junk(1), "junk"
 		}
@@ -610,7 +610,7 @@ func (g *c19Gen) leafVal(l c19Leaf) (any, string) {
 		case x < 88:
 			return map[string]any{}, "object"
 		default:
-			return num(pick(r, []string{"0", "1", "42"})), "wrong-type"
+			return c19num(pick(r, []string{"0", "1", "42"})), "wrong-type"
 		}
 	}
 }
@@ -685,7 +685,7 @@ func (g *c19Gen) payload() any {
 	switch x := r.IntN(100); {
 	case x < 4:
 		g.c.Count("payload.non-object")
-		return pick(r, []any{nil, true, false, num("5"), "hledger", []any{}, []any{map[string]any{}}, num("0")})
+		return pick(r, []any{nil, true, false, c19num("5"), "hledger", []any{}, []any{map[string]any{}}, c19num("0")})
 	case x < 12:
 		g.c.Count("payload.random")
 		return g.junk(4)
@@ -705,7 +705,7 @@ func (g *c19Gen) payload() any {
 	}
 	if r.IntN(40) == 0 { // wrapper member of the wrong type, with siblings
 		m := v.(map[string]any)
-		m["hledger"] = pick(r, []any{nil, num("1"), "x", []any{}, true})
+		m["hledger"] = pick(r, []any{nil, c19num("1"), "x", []any{}, true})
 		g.c.Count("payload.wrapper-ill-typed")
 	}
 	return v
